@@ -523,6 +523,9 @@ func doCheck(scratch, prop, tier string) int {
 				}
 			}
 			fmt.Fprintf(os.Stderr, "check: NONDETERMINISM: seed %d scenario %s gave %s|%s (digest %s) in the batch but %s on replay\n", r.Seed, r.Scenario, fo.Kind, fo.Check, r.Digest, got)
+			os.MkdirAll(filepath.Join(verifDir, "out", "nondet"), 0755)
+			nb, _ := json.MarshalIndent(ReplayFile{Property: prop, Signature: fo.Kind + "|" + fo.Check, Failure: *fo, Tier: tier, Result: r}, "", " ")
+			os.WriteFile(filepath.Join(verifDir, "out", "nondet", fmt.Sprintf("%s-%d.json", prop, r.Seed)), nb, 0644)
 			return 2
 		}
 		if strings.HasPrefix(sig, "known|") {
